@@ -503,6 +503,14 @@ def run(ctx: Ctx) -> None:
     ctx.note(f"abstract cases explored: {len(explore_orders(ctx))}")
     rule_round(ctx)
     rule_validation(ctx)
+    # 'filled by the first bar that reaches it' needs every open order of the bar's pair to be processed on every bar: the open-order
+    # index must not lose orders (shared with C05.5, reported here as C04.5)
+    from . import c05
+    ctx.rule_map = {"C05.5": "C04.5"}
+    try:
+        c05.rule_listings(ctx)
+    finally:
+        ctx.rule_map = {}
     ctx.assume("prices > 0 (validated by requests, asserted by the order constructors)")
     ctx.assume("price impact >= 0 (asserted by the liquidity strategies)")
     ctx.assume("bars satisfy low <= open, close <= high (C19.1)")
